@@ -195,6 +195,96 @@ fn sweeper_run(report: &mut Report, seed: u64, rid: u64, dir: &str) -> Option<(S
             failure = fail("ttl:permanent-key-removed", format!("key {} (no expiry) is gone after the sweeper ran", hex(k)));
         }
     }
+    // the expiry instant itself, with the process-wide clock frozen on it: `now == expiry` is not yet
+    // expired, so neither a read nor the sweeper (which keeps sampling while we wait) may take the key away
+    if failure.is_none() {
+        let t0 = now();
+        feoxdb::verif::set_frozen_now_ns(t0);
+        let keys: Vec<Vec<u8>> = (0..6).map(|i| format!("edge-{i}").into_bytes()).collect();
+        let mut ok_keys = Vec::new();
+        for k in &keys {
+            seq += 1;
+            if store.insert_with_ttl(k, &values::make(Tag { key_id: kid(k), writer: 0, seq }, 48), 1).is_ok() {
+                ok_keys.push(k.clone());
+            }
+        }
+        feoxdb::verif::set_frozen_now_ns(t0 + NS); // every one of them expires exactly now
+        let sampled_before = store.stats().ttl_expired_active;
+        std::thread::sleep(Duration::from_millis(25)); // the sweeper runs every millisecond
+        for k in &ok_keys {
+            match store.verif_entry(k) {
+                Some(e) if e.ttl_expiry == t0 + NS => {
+                    if let Err(e) = store.get(k) {
+                        failure = fail("ttl:hidden-at-expiry-instant", format!("get({}) answers {} at the very instant of its expiry (now == expiry is not yet expired)", hex(k), err_name(&e)));
+                    }
+                    report.count("expiry_instant_probes", 1);
+                }
+                Some(_) => {} // expiry derived differently (not from the frozen clock): nothing to say
+                None => {
+                    failure = fail("ttl:removed-at-expiry-instant", format!("key {} was removed while the clock stood exactly on its expiry instant (sweeper removals {} -> {})", hex(k), sampled_before, store.stats().ttl_expired_active));
+                }
+            }
+        }
+        feoxdb::verif::set_frozen_now_ns(t0 + NS + 1);
+        std::thread::sleep(Duration::from_millis(10));
+        for k in &ok_keys {
+            let expired = store.verif_entry(k).is_none_or(|e| e.ttl_expiry > 0 && e.ttl_expiry <= t0 + NS);
+            if failure.is_none() && expired && store.get(k).is_ok() {
+                failure = fail("ttl:visible-after-expiry", format!("get({}) still answers one nanosecond after its expiry", hex(k)));
+            }
+        }
+        feoxdb::verif::set_frozen_now_ns(0);
+    }
+    // quiescence (callers stopped; the sweeper goes idle once nothing expired is left): exact accounting and
+    // agreement of the two indexes, including after removals made by the sweeper
+    if failure.is_none() {
+        feoxdb::verif::advance_clock_ns(3 * NS);
+        let overhead = storeutil::record_overhead();
+        let mut bad: Option<String> = None;
+        let mut strikes = 0;
+        for _ in 0..200 {
+            let removed_before = store.stats().ttl_expired_active;
+            let snap = store.verif_snapshot();
+            let (usage, len) = (store.memory_usage(), store.len());
+            let expired_left = snap.entries.iter().filter(|e| e.ttl_expiry > 0 && e.ttl_expiry < now()).count();
+            let sum: usize = snap.entries.iter().map(|e| overhead + e.key.len() + e.value_len).sum();
+            let mut hash: Vec<(&[u8], usize)> = snap.entries.iter().map(|e| (e.key.as_slice(), e.addr)).collect();
+            let mut tree: Vec<(&[u8], usize)> = snap.tree.iter().map(|(k, a)| (k.as_slice(), *a)).collect();
+            hash.sort();
+            tree.sort();
+            let problem = if usage != sum {
+                Some(format!("memory_usage() = {usage} but the {} live keys add up to {sum}", snap.entries.len()))
+            } else if len != snap.entries.len() {
+                Some(format!("len() = {len} but {} keys are live", snap.entries.len()))
+            } else if hash != tree {
+                let only_tree: Vec<String> = tree.iter().filter(|t| !hash.contains(t)).take(3).map(|(k, _)| hex(k)).collect();
+                let only_hash: Vec<String> = hash.iter().filter(|t| !tree.contains(t)).take(3).map(|(k, _)| hex(k)).collect();
+                Some(format!("ordered index and hash table disagree: only in the ordered index {only_tree:?}, only in the hash table {only_hash:?}"))
+            } else {
+                None
+            };
+            let stable = removed_before == store.stats().ttl_expired_active && expired_left == 0;
+            match problem {
+                None if stable => {
+                    bad = None;
+                    report.count("quiescent_accounting_checks", 1);
+                    break;
+                }
+                Some(p) if stable => {
+                    strikes += 1;
+                    bad = Some(p);
+                    if strikes >= 3 {
+                        break;
+                    }
+                }
+                _ => {}
+            }
+            std::thread::sleep(Duration::from_millis(5));
+        }
+        if let Some(p) = bad {
+            failure = fail("ttl:quiescent-state", format!("after the callers stopped and the sweeper had nothing left to remove: {p}"));
+        }
+    }
     let st = store.stats();
     report.count("sweeper_removals", st.ttl_expired_active);
     for (point, arrivals, sleeps, exercised) in ctl.summary() {
